@@ -89,7 +89,7 @@ func de(name string, t Val) dent { return dent{[]byte(name), t, true} }
 var c17Benign = []string{"a", "b", "c", "d", "e", "x", "ld", "rel", "dang", "loop", "in", "unknown", "inner", "keep", "sib", "out", "target"}
 var c17Hostile = []string{"..", ".", "", "a/b", "d/inner", "d/x", "d/new", "x/y", "ld/keep", "ld/new", "/abs", c17Outside + "/target",
 	c17Outside + "/new2", "../sib", "../new3", "../../outside/target", "../../outside/new4", "d/../../sib", "a//b", "a/", "/", "./a", "a/.",
-	"a/..", "d/..", "a\x00b", "\xc3\xbc", "a b", "-r", "a\nb", "..a", "...", "in/inner", "in/new5", "dd/sib", "dd/new6"}
+	"a/..", "d/..", "a\x00b", "\xc3\xbc", "a b", "-r", "a\nb", "..a", "...", "in/inner", "in/new5", "dd/sib", "dd/new6", "ld/n1/n2", "x/n1/n2", "dd/w/new7/new8", "d/n1/n2"}
 
 var c17Targets = []string{c17Outside + "/target", c17Outside + "/dir", c17Outside + "/newfile", c17Outside + "/dir/newfile",
 	"../sib", "../new7", "../../outside/target", "../../outside/dir", "../../outside/new8", "d", "a", ".", "..", "", c17Out, c17Out + "/d", "x", "loop",
@@ -308,7 +308,12 @@ func c17Features(v Val, f map[string]int) {
 }
 
 func c17Emit(c *Ctx, label string, fs VL, outdir, pathflag string, buildroots VL, opts Val, preLinks int) {
-	in := extractInput(fs, c17Cwd(), []byte(outdir), []byte(pathflag), buildroots, opts)
+	cwd := c17Cwd()
+	if vn(vnth(opts, 2)) != 0 {
+		// no output argument: the process runs in (the logical spelling of) the output directory
+		cwd = c17p("q", "p", "w", "out")
+	}
+	in := extractInput(fs, cwd, []byte(outdir), []byte(pathflag), buildroots, opts)
 	obs := runExtractCase(c, in)
 	if vt(vnth(obs, 0)) == "generator-collision" {
 		c.Count("skipped:missing-block-present-elsewhere")
@@ -399,6 +404,8 @@ func itoa(i int) string {
 	return s
 }
 
+func vn0() Val { return VN(0) }
+
 func rootN(t Val) Val { return VL{VT("n"), t} }
 
 var optFile = VL{VN(0), VN(0)}
@@ -457,6 +464,8 @@ func init() {
 			{"dotdot-symlink-entry-then-second-root", with(), VL{rootN(dirV(0, de("..", linkV(c17Outside+"/dir")))), rootN(dirV(0, de("pwn", f1("PWNED"))))}, 0},
 			{"dot-symlink-entry-then-second-root", with(), VL{rootN(dirV(0, de(".", linkV(c17Outside+"/dir")))), rootN(dirV(0, de("pwn", f1("PWNED"))))}, 0},
 			{"empty-name-symlink-entry-then-second-root", with(), VL{rootN(dirV(0, dent{nil, linkV("../../outside/dir"), false})), rootN(dirV(0, de("keep", f1("PWNED"))))}, 0},
+			{"name-with-separators-below-symlink-entry", with(), VL{rootN(dirV(0, de("a", linkV(c17Outside+"/dir")), de("a/b/c", f1("PWNED")), de("after", f1("A"))))}, 0},
+			{"name-with-separators-below-prepopulated-symlink", with(fsLink(c17Outside+"/dir", outp("ld")...)), VL{rootN(dirV(0, de("ld/n1/n2", missV([]byte("n"))), de("ld/n3/n4/n5", dirV(0))))}, 1},
 			{"symlink-chain-then-file", with(), VL{rootN(dirV(0, de("y", linkV(tgt)), de("x", linkV("y")), de("x", f1("PWNED"))))}, 0},
 			{"missing-blocks", with(), VL{rootN(dirV(0, de("a", missV([]byte("1"))), de("b", f1("B")), de("c", fileErrV([]byte("0123456789"), 3, 2, 1))))}, 0},
 			{"missing-root", with(), VL{rootN(dirV(0, de("a", f1("A")))), rootN(missV([]byte("2")))}, 0},
@@ -506,10 +515,29 @@ func init() {
 			roots := VL{rootN(dirV(0, de("a", f1("A"))))}
 			c17Emit(c, "directed:evalsymlinks-link-budget", fs, "k0", "", roots, optFile, 0)
 		}
+		// no output directory argument: extraction into the working directory, which the process entered
+		// through a symlink (its logical $PWD spelling is what os.Getwd returns)
+		for _, od := range []string{"/SB/q/p/w/lnk", "/SB/q/p/w/alnk", c17Out} {
+			for _, sc := range scens {
+				if sc.name != "symlink-then-file" && sc.name != "symlink-dir-then-dir" && sc.name != "benign" && sc.name != "dotdot-names" {
+					continue
+				}
+				c17Emit(c, "directed:cwd-no-argument:"+sc.name, sc.fs, od, "", sc.roots, VL{VN(0), VN(0), VN(1)}, sc.pre)
+			}
+		}
+		// output directory "-": contents go to standard output, nothing may be touched anywhere
+		for _, sc := range scens {
+			switch sc.name {
+			case "benign", "benign-chunked", "benign-file-root", "symlink-then-file", "missing-blocks", "dotdot-names",
+				"raw-root-and-dir", "symlink-root", "file-then-dir-same-name", "mode-on-benign-entries", "absolute-names":
+				c17Emit(c, "directed:stdout:"+sc.name, sc.fs, "-", "", sc.roots, VL{vbool(r.Chance(30)), VN(0), VN(0)}, sc.pre)
+			}
+		}
 		// --path on directed trees
 		ptree := VL{rootN(dirV(0, de("a", f1("A")), de("d", dirV(0, de("b", f1("B")), de("x", linkV(tgt)), de("x", f1("PWNED")))), de("d", f1("second"))))}
 		for _, pf := range []string{"a", "d", "d/b", "d/x", "/d/b/", "nosuch", "d/nosuch", "a/b", "d//b", "./a", "..", "d/..", "/"} {
 			c17Emit(c, "directed:path-flag", with(), pick(r, []string{c17Out, "out"}), pf, ptree, optFile, 0)
+			c17Emit(c, "directed:stdout:path-flag", with(), "-", pf, ptree, optFile, 0)
 		}
 
 		// ---- thorough: every ordered pair of entries over a small alphabet of (name, node) in one
@@ -558,6 +586,11 @@ func init() {
 			od := pick(gr, c17Outdirs)
 			if oddOut {
 				od = pick(gr, c17OddOutdirs)
+			}
+			if gr.Chance(6) {
+				od = "-"
+				oddOut = true
+				g.c.Count("outdir:stdout")
 			}
 			nroots := pick(gr, []int{1, 1, 1, 2, 2, 3})
 			roots := VL{}
@@ -608,7 +641,11 @@ func init() {
 			}
 			// (a CARv2 on a stdin pipe fails before anything is extracted: C18 looks at that)
 			useStdin := gr.Chance(20)
-			opts := VL{vbool(useStdin), vbool(!useStdin && gr.Chance(12))}
+			opts := VL{vbool(useStdin), vbool(!useStdin && gr.Chance(12)), VN(0)}
+			if !oddOut && gr.Chance(10) {
+				od = pick(gr, []string{"/SB/q/p/w/lnk", "/SB/q/p/w/alnk", c17Out})
+				opts = VL{vbool(useStdin), vn0(), VN(1)}
+			}
 			c17Emit(c, "random", fs, od, pf, roots, opts, pre)
 		}
 	})
